@@ -146,6 +146,67 @@ def suite_by_name(name):
     return next(s for s in SUITES if s.name == name)
 
 
+def call_sites(r, n_cases):
+    """the two call sites named by the property (writers/base.py: the identified-precursor filter; scoring_strategy.py: peptide
+    counting) hand the function their PEPs in their own way (rows of the evidence in file order, with match-between-runs NaNs): the
+    cutoff each of them ends up with must be the function's value on the plain list of those PEPs, in any order"""
+    import random
+    from picked_group_fdr import fdr, columns
+    from picked_group_fdr.results import ProteinGroupResults
+    from picked_group_fdr.protein_groups import ProteinGroups
+    from picked_group_fdr.scoring_strategy import ProteinScoringStrategy
+    from picked_group_fdr.writers.base import ProteinGroupsWriter
+    rng = r.rng
+    grid = [0.0, 2.0 ** -10, 2.0 ** -9, 0.01, 0.02, 0.05, 0.125, 0.25, 0.5, 0.75, 1.0]
+    n = 0
+    for _ in range(n_cases):
+        peps = [rng.choice(grid) for _ in range(rng.randint(0, 9))]
+        peps += [float("nan")] * rng.choice([0, 0, 1, 2])
+        rng.shuffle(peps)
+        level = rng.choice([0.005, 0.01, 0.05, 0.2, 0.5])
+        finite = sorted(p for p in peps if p == p)
+        want = fdr.calc_post_err_prob_cutoff(list(finite), level)
+        n += 1
+        # (a) the writer
+        got = {}
+
+        class Col(columns.ProteinGroupColumns):
+            def append_headers(self, *a, **k):
+                pass
+
+            def append_columns(self, *a, **k):
+                pass
+
+            def append(self, pgr, cutoff):
+                got["writer"] = cutoff
+
+        class W(ProteinGroupsWriter):
+            def get_columns(self):
+                return [Col()]
+        rows = [(p, "raw1", "E1", f"PEPTIDE{i}K") for i, p in enumerate(peps)]
+        try:
+            W().append_quant_columns(ProteinGroupResults(), rows, level)
+        except Exception as e:
+            got["writer"] = f"{type(e).__name__}: {e}"[:120]
+        # (b) peptide counting: every peptide belongs to one protein, each protein is its own group
+        pil = {f"PEPTIDE{i}K": (p, [f"P{i}"]) for i, p in enumerate(peps)}
+        st = ProteinScoringStrategy("bestPEP")
+        try:
+            st.collect_peptide_scores_per_protein(ProteinGroups.init_from_list([[f"P{i}"] for i in range(len(peps))]), pil, level)
+            got["scoring"] = st.peptide_score_cutoff
+        except Exception as e:
+            got["scoring"] = f"{type(e).__name__}: {e}"[:120]
+        for site in ("writer", "scoring"):
+            if got.get(site) != want:
+                r.violation("property-failure", {"suite": "call_sites", "site": site, "peps_in_row_order": [repr(p) for p in peps],
+                                                 "level": level, "cutoff_at_the_call_site": repr(got.get(site)),
+                                                 "cutoff_of_the_list": repr(want)}, True,
+                            f"call_sites: the {site} call site ends up with cutoff {got.get(site)!r} for PEPs {peps} at level {level}; "
+                            f"the function on the list gives {want!r}")
+                return n
+    return n
+
+
 def run(r: core.Runner):
     r.assumptions += [
         "float arithmetic of the running mean is exact on the generated grid (multiples of 2^-20, <= 1024 "
@@ -155,3 +216,4 @@ def run(r: core.Runner):
     ]
     for s in SUITES:
         r.run_suite(s)
+    r.traces = (r.traces or 0) + call_sites(r, core.tier_n(r.tier, 300, 5000))
